@@ -1,5 +1,5 @@
 import ScVerif.C01.Outcome
-import ScVerif.C01.Flat
+import ScVerif.C01.IcptLemmas
 /-!
 # C01 — property theorems
 
@@ -133,9 +133,9 @@ theorem C01_list_sorted (cfg : Cfg M K R) (h : EqRefl cfg.ops) (records : List (
 /-- Generated ids. A successful Update/Add that was given the empty id with `WithGenIDIfAbsent`:
 the id `id'` under which the item is stored and announced was not a key before, is reported
 through the id callback exactly once (when one is registered), and the item just written is stored
-under it.  If the id interceptor is idempotent on `id'`, `Get id'` returns the value just written (and
-`Update`/`Delete`, which resolve ids the same way, reach the same item); if it maps non-empty ids to
-non-empty ids, `id'` is non-empty. -/
+under it; `id'` is the id interceptor's image of a non-empty candidate.  If the interceptor leaves `id'`
+alone, `Get id'` returns the value just written.  (`C01_genid_interceptor` turns this into a condition on
+the interceptor.) -/
 theorem C01_genid (cfg : Cfg M K R) (h : EqRefl cfg.ops) (s : CState M R) (id : String) (msg : M)
     (wr : WriteReq M K)
     (hgen : icptId cfg id = "" ∧ wr.genEmptyID = true)
@@ -148,7 +148,7 @@ theorem C01_genid (cfg : Cfg M K R) (h : EqRefl cfg.ops) (s : CState M R) (id : 
       (lookup (Coll.update cfg s id msg wr).2.items id').map (·.body) = some new ∧
       (icptId cfg id' = id' →
         Coll.get cfg (Coll.update cfg s id msg wr).2 id' {} = some (cfg.ops.filter none new)) ∧
-      ((∀ x, x ≠ "" → icptId cfg x ≠ "") → id' ≠ "") := by
+      (∃ cand, cand ≠ "" ∧ id' = icptId cfg cand) := by
   have he := coll_update_eq cfg h s id msg wr
   have hm : ∀ k, lookup (Coll.update cfg s id msg wr).2.items k = (abs (Coll.update cfg s id msg wr).2).m k :=
     fun _ => rfl
@@ -189,16 +189,48 @@ theorem C01_genid (cfg : Cfg M K R) (h : EqRefl cfg.ops) (s : CState M R) (id : 
     · intro hid
       rw [hid]
       unfold Spec.commit; cases wr.writeTime <;> simp [SState.put]
-    · intro hne
-      unfold genID at hgn
+    · unfold genID at hgn
       rcases hloop : genLoop cfg.gen (fun cand => usedIn s.items (icptId cfg cand)) 10 0 s.rng with ⟨r, rg⟩
       rw [hloop] at hgn
       cases r with
       | none => simp at hgn
       | some c =>
         simp only [Option.map_some, Prod.mk.injEq, Option.some.injEq] at hgn
-        rw [← hgn.1]
-        exact hne c (genLoop_some _ _ _ _ _ _ _ hloop).1
+        exact ⟨c, (genLoop_some _ _ _ _ _ _ _ hloop).1, hgn.1.symm⟩
+
+/-- A sufficient condition on the id interceptor (none is an interceptor too: the identity):
+IDEMPOTENT (`icpt (icpt x) = icpt x`) and NON-EMPTINESS PRESERVING (`x ≠ "" → icpt x ≠ ""`).  Then a
+generated id is non-empty, was unused, is reported once, and is USABLE: `Get id'` returns the item just
+written and `Delete id'` removes exactly it.  Idempotence is what makes the reported id usable: every
+entry point applies the interceptor to the id it is given, and (since fix e0639b6) the stored key is
+the interceptor's image of the candidate. -/
+theorem C01_genid_interceptor (cfg : Cfg M K R) (h : EqRefl cfg.ops) (s : CState M R) (id : String) (msg : M)
+    (wr : WriteReq M K)
+    (hidem : ∀ x, icptId cfg (icptId cfg x) = icptId cfg x)
+    (hne : ∀ x, x ≠ "" → icptId cfg x ≠ "")
+    (hgen : icptId cfg id = "" ∧ wr.genEmptyID = true)
+    (hok : (Coll.update cfg s id msg wr).1.err = none) :
+    ∃ id' new,
+      id' ≠ "" ∧ lookup s.items id' = none ∧
+      (Coll.update cfg s id msg wr).1.val = some new ∧
+      (Coll.update cfg s id msg wr).1.idCalls = (if wr.idCb then [id'] else []) ∧
+      Coll.get cfg (Coll.update cfg s id msg wr).2 id' {} = some (cfg.ops.filter none new) ∧
+      (Coll.delete cfg (Coll.update cfg s id msg wr).2 id' {}).1.val = some new ∧
+      (Coll.delete cfg (Coll.update cfg s id msg wr).2 id' {}).1.err = none ∧
+      lookup (Coll.delete cfg (Coll.update cfg s id msg wr).2 id' {}).2.items id' = none := by
+  obtain ⟨id', new, h1, _, h3, h4, h5, h6, cand, hc1, hc2⟩ := C01_genid cfg h s id msg wr hgen hok
+  have hfix : icptId cfg id' = id' := by rw [hc2]; exact hidem cand
+  refine ⟨id', new, by rw [hc2]; exact hne cand hc1, h3, h1, h4, h6 hfix, ?_⟩
+  -- Delete resolves the id the same way and finds the item just written
+  have hdel := deleteLoop_first cfg h ({} : WriteReq M K) (icptId cfg id') 4 (Coll.update cfg s id msg wr).2
+  unfold Coll.delete
+  rw [hdel, hfix]
+  cases hl : lookup (Coll.update cfg s id msg wr).2.items id' with
+  | none => rw [hl] at h5; simp at h5
+  | some it =>
+    rw [hl] at h5
+    simp only [Option.map_some, Option.some.injEq] at h5
+    simp [h5, lookup_eraseItem]
 
 /-- One caller at a time never sees the re-validation fail: `Aborted` from Update/Add comes only from
 id-generation exhaustion (ten candidates all empty or in use), or is the very code returned by the
@@ -302,20 +334,70 @@ theorem C01_seq_delete_no_retry (cfg : Cfg M K R) (h : EqRefl cfg.ops) (s : CSta
 /-- the hypothesis `EqRefl` holds for the concrete message operations the driver runs -/
 example : EqRefl flatOps := fun m => by simp [flatOps]
 
-/-- the interceptor hypotheses of `C01_genid` hold for a collection without id interceptor -/
+/-- the interceptor hypotheses of `C01_genid_interceptor` hold for a collection without id interceptor -/
 example (cfg : Cfg M K R) (hc : cfg.icpt = none) :
-    (∀ x, icptId cfg x = x) ∧ (∀ x, x ≠ "" → icptId cfg x ≠ "") := by
+    (∀ x, icptId cfg (icptId cfg x) = icptId cfg x) ∧ (∀ x, x ≠ "" → icptId cfg x ≠ "") := by
   simp [icptId, hc]
+
+/-- ... for the lower-casing interceptor (the documented use of `WithIDInterceptor`) ... -/
+example (cfg : Cfg M K R) (hc : cfg.icpt = some lowerStr) :
+    (∀ x, icptId cfg (icptId cfg x) = icptId cfg x) ∧ (∀ x, x ≠ "" → icptId cfg x ≠ "") := by
+  simp only [icptId, hc]
+  exact ⟨lowerStr_idem, lowerStr_ne⟩
+
+/-- ... and for `first` (keep the first character; many ids collide, generation still yields usable ids). -/
+example (cfg : Cfg M K R) (hc : cfg.icpt = some firstStr) :
+    (∀ x, icptId cfg (icptId cfg x) = icptId cfg x) ∧ (∀ x, x ≠ "" → icptId cfg x ≠ "") := by
+  simp only [icptId, hc]
+  exact ⟨firstStr_idem, firstStr_ne⟩
+
+/-- `dash` is not idempotent, but it never yields the empty id, so id generation can never be
+triggered under it: the premise of `C01_genid` is unsatisfiable. -/
+example : dashStr (dashStr "a") ≠ dashStr "a" ∧ ∀ x, dashStr x ≠ "" := by
+  refine ⟨by decide, fun x hx => ?_⟩
+  have := congrArg String.toList hx
+  simp [dashStr] at this
+
+def dupCfg : Cfg Msg Mask (List Nat) := { ops := flatOps, gen := flatGen, icpt := some dupStr }
+
+/-- Idempotence is NEEDED (`dup` doubles an id: maps "" to "", keeps non-emptiness, is not idempotent):
+the generated id is stored under `dup candidate`, reported as such, and `Get` of the reported id looks
+up `dup (dup candidate)` and misses.  This is what the code does (tied: the `dup` interceptor is in
+the closed family); the property's "usable" clause cannot hold for such an interceptor, whatever key the
+code chose. -/
+theorem C01_genid_needs_idempotence :
+    ∃ id', (Coll.add dupCfg (Coll.init dupCfg [] []) "" { a := 1, s := "", c := none } { genEmptyID := true, idCb := true }).1.idCalls = [id'] ∧
+      (Coll.add dupCfg (Coll.init dupCfg [] []) "" { a := 1, s := "", c := none } { genEmptyID := true, idCb := true }).1.err = none ∧
+      Coll.get dupCfg (Coll.add dupCfg (Coll.init dupCfg [] []) "" { a := 1, s := "", c := none } { genEmptyID := true, idCb := true }).2 id' {} = none :=
+  ⟨"AAAAAAAAAAAAAAAA", by decide⟩
+
+/-- top-level masks on the three shapes of field (what the code does, tied): under an update mask
+naming them a scalar is REPLACED, a nested message is MERGED sub-field-wise, a repeated field is
+APPENDED to, and a named field the written message does not populate is CLEARED; with no update mask
+everything is replaced -/
+example :
+    Flat.merge { writable := none, update := some [.a, .f, .r], reset := none }
+      { a := 1, s := "x", c := none, f := some (2, 3), r := [5, 6] }
+      { a := 9, s := "y", c := some 4, f := some (0, 8), r := [7] } =
+      { a := 9, s := "x", c := none, f := some (2, 8), r := [5, 6, 7] } ∧
+    Flat.merge { writable := none, update := some [.f, .r], reset := none }
+      { a := 1, s := "x", c := none, f := some (2, 3), r := [5, 6] }
+      { a := 9, s := "y", c := none } =
+      { a := 1, s := "x", c := none } ∧
+    Flat.merge { writable := none, update := none, reset := none }
+      { a := 1, s := "x", c := none, f := some (2, 3), r := [5, 6] }
+      { a := 0, s := "", c := none, f := some (0, 8), r := [7] } =
+      { a := 0, s := "", c := none, f := some (0, 8), r := [7] } := by decide
 
 def exCfg : Cfg Msg Mask (List Nat) := { ops := flatOps, gen := flatGen }
 
 /-- a 7-call script: generated-id create, create, masked update, failed precondition, delete, failing
 delete, list — the codes the model answers with -/
 def exScript : List (COp Msg Mask) :=
-  [ .add "" ⟨1, "", none⟩ { genEmptyID := true, idCb := true },
-    .add "b" ⟨2, "x", none⟩ {},
-    .update "b" ⟨7, "y", none⟩ { updateMask := some [.a] },
-    .update "b" ⟨9, "", none⟩ { expectedValue := some ⟨2, "x", none⟩ },
+  [ .add "" { a := 1, s := "", c := none } { genEmptyID := true, idCb := true },
+    .add "b" { a := 2, s := "x", c := none } {},
+    .update "b" { a := 7, s := "y", c := none } { updateMask := some [.a] },
+    .update "b" { a := 9, s := "", c := none } { expectedValue := some { a := 2, s := "x", c := none } },
     .delete "b" {},
     .delete "b" {},
     .list {} ]
@@ -328,6 +410,6 @@ example : ((Coll.run exCfg (Coll.init exCfg [] []) exScript).1.map errOf) =
     [none, none, none, some .failedPrecondition, none, some .notFound, none] := by decide
 
 example : (Coll.list exCfg (Coll.run exCfg (Coll.init exCfg [] []) (exScript.take 3)).2 {}) =
-    [⟨1, "", none⟩, ⟨7, "x", none⟩] := by decide
+    [{ a := 1, s := "", c := none }, { a := 7, s := "x", c := none }] := by decide
 
 end ScVerif.C01
